@@ -4,6 +4,7 @@ import Dbus.Model.Utf8
 import Dbus.Model.Signature
 import Driver.Tree
 import Driver.Wire
+import Driver.PC
 /-
   Line-protocol driver over Dbus.Model (compiled; imports no proofs and no Mathlib).
 
@@ -35,6 +36,7 @@ structure Stats where
   bad : Nat := 0
   nontrivial : Nat := 0
   tree : TreeState := {}
+  pc : Dbus.Model.PC.State := {}
 
 def handle (st : Stats) (line : String) : Stats × Option String :=
   let toks := (line.trimAscii.toString.splitOn " ").filter (· ≠ "")
@@ -43,6 +45,9 @@ def handle (st : Stats) (line : String) : Stats × Option String :=
   | "tree" :: rest =>
     let (t, ans) := treeCmd st.tree rest
     ({ st with tree := t, bad := if ans = "bad-op" then st.bad + 1 else st.bad }, some ans)
+  | "pc" :: rest =>
+    let (p, ans) := pcCmd st.pc rest
+    ({ st with pc := p, bad := if ans = "bad-op" then st.bad + 1 else st.bad }, some ans)
   | "wire" :: rest =>
     let ans := wireCmd rest
     ({ st with bad := if ans = "bad-op" then st.bad + 1 else st.bad }, some ans)
